@@ -23,19 +23,19 @@ HASH_CLASSES = [0, 1, 4, 6, 2, 3, 5, 7, 8, 9, 10, 11, 12, 13, 14, 15, 16, 17, 18
 
 # per property: (quick runs, quick wall cap, thorough runs, thorough wall cap)
 BUDGET = {
-    "C01": (12000, 50, 600000, 660),
-    "C02": (12000, 50, 600000, 660),
-    "C03": (16000, 50, 800000, 660),
-    "C04": (4000, 50, 200000, 660),
-    "C05": (16000, 50, 800000, 660),
-    "C07": (5000, 55, 250000, 660),
-    "C08": (16000, 50, 800000, 660),
-    "C09": (12000, 50, 600000, 660),
-    "C12": (8000, 50, 400000, 660),
-    "C13": (3000, 55, 150000, 660),
-    "C16": (1600, 55, 60000, 660),
-    "C17": (1000, 55, 40000, 660),
-    "C18": (10000, 50, 500000, 660),
+    "C01": (40000, 70, 1500000, 900),
+    "C02": (40000, 70, 1500000, 900),
+    "C03": (80000, 70, 3000000, 900),
+    "C04": (5000, 70, 200000, 900),
+    "C05": (64000, 70, 2500000, 900),
+    "C07": (20000, 70, 800000, 900),
+    "C08": (96000, 70, 3500000, 900),
+    "C09": (80000, 70, 3000000, 900),
+    "C12": (32000, 70, 1200000, 900),
+    "C13": (12000, 70, 450000, 900),
+    "C16": (2400, 70, 90000, 900),
+    "C17": (1200, 70, 45000, 900),
+    "C18": (40000, 70, 1500000, 900),
 }
 
 LEVEL = {p: "exploration" for p in BUDGET}
